@@ -1,3 +1,86 @@
-From Serif Require Import Base.PyVal Model.Heap.
-Theorem C15_placeholder : True. Proof. exact I. Qed.
-Print Assumptions C15_placeholder.
+(* Props/C15.v — alias tracking is exact: no leaked write, no spurious refusal.
+   The identity every new storage tuple receives is an INPUT of each operation, unconstrained:
+   the theorems hold for every choice the allocator can make, including re-use of the identity
+   of freed storage, and for every placement of [OCollect] (garbage collection) in a history. *)
+From Coq Require Import List Bool ZArith.
+From Serif Require Import Base.PyVal Model.Heap Proofs.HeapBase Proofs.HeapReg Proofs.HeapFrame.
+Import ListNotations.
+
+(* In every reachable state the registry's live view IS the sharing relation: every live
+   object is registered under its current storage, and whatever is registered under a storage
+   identity is a live object currently holding exactly that storage (no stale entry). *)
+Theorem C15_registry_exact_in_every_reachable_state : forall os, Inv_reg (run init os).
+Proof. exact (fun os => reachable_Inv_reg os init Inv_reg_init). Qed.
+Print Assumptions C15_registry_exact_in_every_reachable_state.
+
+Theorem C15_registry_invariant_preserved : forall s o s' out,
+  step s o = (s', out) -> Inv_reg s -> Inv_reg s'.
+Proof. exact step_preserves_Inv_reg. Qed.
+Print Assumptions C15_registry_invariant_preserved.
+
+(* A write is refused with AliasError only while ANOTHER live object really has the same,
+   non-empty storage. *)
+Theorem C15_refusal_only_while_really_shared : forall s h us sid' s',
+  Inv_reg s -> step s (OSetV h us sid') = (s', ErrAlias) ->
+  exists v h' o', getv s h = Some v /\ h' <> h /\ aget (heap s) h' = Some o' /\
+                  sid_of o' = sid v /\ sid v <> EMPTY.
+Proof. exact refusal_sound. Qed.
+Print Assumptions C15_refusal_only_while_really_shared.
+
+(* A vector that shares its storage with no other live object is always writable — no matter
+   what was created, reassigned, promoted, dropped or collected before. *)
+Theorem C15_sole_owner_always_writable : forall s h v us sid',
+  Inv_reg s -> getv s h = Some v ->
+  (forall h' o', h' <> h -> aget (heap s) h' = Some o' -> sid_of o' <> sid v) ->
+  snd (step s (OSetV h us sid')) <> ErrAlias.
+Proof. exact sole_owner_never_refused. Qed.
+Print Assumptions C15_sole_owner_always_writable.
+
+Theorem C15_sole_owner_writable_after_any_history : forall os h v us sid',
+  getv (run init os) h = Some v ->
+  (forall h' o', h' <> h -> aget (heap (run init os)) h' = Some o' -> sid_of o' <> sid v) ->
+  snd (step (run init os) (OSetV h us sid')) <> ErrAlias.
+Proof.
+  exact (fun os h v us sid' => sole_owner_never_refused (run init os) h v us sid'
+           (reachable_Inv_reg os init Inv_reg_init)).
+Qed.
+Print Assumptions C15_sole_owner_writable_after_any_history.
+
+Theorem C15_empty_storage_never_refused : forall s h v us sid',
+  getv s h = Some v -> sid v = EMPTY -> snd (step s (OSetV h us sid')) <> ErrAlias.
+Proof. exact empty_storage_never_refused. Qed.
+Print Assumptions C15_empty_storage_never_refused.
+
+(* exact characterisation of the refusals *)
+Theorem C15_refusal_iff : forall s h v us sid',
+  Inv_reg s -> getv s h = Some v ->
+  (snd (step s (OSetV h us sid')) = ErrAlias <->
+   sid v <> EMPTY /\ exists h' o', h' <> h /\ aget (heap s) h' = Some o' /\ sid_of o' = sid v).
+Proof. exact refusal_iff. Qed.
+Print Assumptions C15_refusal_iff.
+
+(* No leaked write: a successful or failed write through h leaves every other object —
+   in particular a vector built over the same caller-supplied tuple — exactly as it was. *)
+Theorem C15_no_leaked_write : forall s h us sid' s' out h2 o2,
+  step s (OSetV h us sid') = (s', out) -> h2 <> h -> aget (heap s) h2 = Some o2 ->
+  option_map strip (aget (heap s') h2) = Some (strip o2).
+Proof.
+  exact (fun s h us sid' s' out h2 o2 H Hne Hg =>
+    step_frame s (OSetV h us sid') s' out h2 o2 H Hg
+      (fun Hin => match Hin with or_introl E => Hne (eq_sym E) | or_intror F => F end) (fun F => F)).
+Qed.
+Print Assumptions C15_no_leaked_write.
+
+(* Non-vacuity: sharing, refusal, release by writing the partner, release by collection, and
+   re-use of a freed identity. *)
+Example C15_example :
+  let os := [ ONewVec 1 (CLit [SInt 1; SInt 2] None) None 5;
+              ONewVec 2 (CLit [SInt 1; SInt 2] None) None 5 ] in
+  let s := run init os in
+  snd (step s (OSetV 1 [(0, SInt 7)] 6)) = ErrAlias /\
+  (* partner collected -> writable again *)
+  snd (step (run s [OCollect [2]]) (OSetV 1 [(0, SInt 7)] 6)) = Ok /\
+  (* partner written (moved to storage 6) -> writable, even if the new vector 3 re-uses identity 5's slot later *)
+  snd (step (run s [OSetV 2 [(0, SInt 7)] 6; OCollect [2]; ONewVec 3 (CLit [SInt 0] None) None 6])
+            (OSetV 3 [(0, SInt 1)] 7)) = Ok.
+Proof. vm_compute. repeat split. Qed.
